@@ -439,6 +439,34 @@ def postcondition_probes(chk, rng):
                 chk.violation("distribution:%s" % name, "frequencies %s deviate from p=%s beyond the fixed bound" % (ff, p), dict(p=p))
 
 
+def multinomial_sampling(chk):
+    """MultinomialDistribution.execute_random_sampling: counts per outcome follow the probability AT THAT POSITION (vectors in no
+    particular order, with zeros, with a shape), sum to the number of trials, and an integer seed equals its generator."""
+    from quara.objects.multinomial_distribution import MultinomialDistribution
+    N = 100000
+    for p, shape in (([0.5, 0.2, 0.3], None), ([0.3, 0.5, 0.2], None), ([0.5, 0.0, 0.3, 0.2], None), ([1.0, 0.0, 0.0, 0.0], None),
+                     ([0.1, 0.2, 0.3, 0.4], None), ([0.25, 0.05, 0.4, 0.1, 0.15, 0.05], (2, 3)), ([0.7, 0.3], None)):
+        pa = np.array(p, dtype=float)
+        chk.count(1, ("mn_sampling", tuple(p)))
+        try:
+            md = MultinomialDistribution(pa.copy(), shape) if shape else MultinomialDistribution(pa.copy())
+            a = md.execute_random_sampling(N, 3, 77)
+            b = md.execute_random_sampling(N, 3, np.random.Generator(np.random.MT19937(77)))
+        except Exception as e:
+            chk.violation("mn_sampling:exception", "p=%s: %r" % (p, e), dict(p=p))
+            continue
+        for smp, smp2 in zip(a, b):
+            smp = np.asarray(smp).ravel()
+            f = smp / float(N)
+            bound = 6 * np.sqrt(pa * (1 - pa) / N) + 1e-3
+            if smp.sum() != N or (smp < 0).any() or (np.abs(f - pa) > bound).any() or (smp[pa == 0] != 0).any():
+                chk.violation("mn_sampling:distribution", "execute_random_sampling with p=%s gives frequencies %s" % (p, np.round(f, 4)), dict(p=p))
+                break
+            if not np.array_equal(smp, np.asarray(smp2).ravel()):
+                chk.violation("mn_sampling:seed_vs_generator", "p=%s: integer seed and the generator seeded alike give different samples" % (p,), dict(p=p))
+                break
+
+
 def dataset_sizes(chk):
     """generate_dataset / generate_data: one data list per schedule with exactly the requested length - zero included
     ("non-negative integers") - holding only outcomes of non-zero probability of THAT schedule."""
@@ -547,6 +575,7 @@ def run(chk):
     postcondition_probes(chk, rng)
     tomography_distributions(chk)
     dataset_sizes(chk)
+    multinomial_sampling(chk)
     chk.assumptions += [
         "outputs are compared through hashes; different stream positions are expected to give different data (draw sizes chosen so that accidental equality is negligible)",
         "statistical agreement is a fixed-bound sanity check outside the TLA+ argument",
